@@ -9,6 +9,8 @@ require (
 	github.com/hprose/hprose-golang/v3 v3.0.0-00010101000000-000000000000
 )
 
+require github.com/orcaman/concurrent-map v1.0.0 // indirect
+
 require (
 	github.com/andot/complexconv v1.0.0 // indirect
 	github.com/anishathalye/porcupine v1.3.0
